@@ -184,6 +184,37 @@ type CaseOut struct {
 	Threads [][]StepOut `json:"threads,omitempty"`
 	Final   [][4]uint64 `json:"final,omitempty"`
 	Panic   string      `json:"panic,omitempty"`
+	// Alias: a list returned by Buffered / Rebase did not stay the caller's own value: "<step>:changed" = it changed under a
+	// later request; "<step>:leaked" = overwriting it changed the buffer's pending list
+	Alias string `json:"alias,omitempty"`
+}
+
+// held keeps every list handed out by the buffer, to see whether it stays the caller's own value
+type held struct {
+	step int
+	got  []Tx
+	was  []Tx
+}
+
+func sameTxs(a, b []Tx) bool {
+	if len(a) != len(b) {
+		return false
+	}
+	for i := range a {
+		if a[i] != b[i] {
+			return false
+		}
+	}
+	return true
+}
+
+func checkHeld(hs []held) string {
+	for _, h := range hs {
+		if !sameTxs(h.got, h.was) {
+			return fmt.Sprintf("%d:changed", h.step)
+		}
+	}
+	return ""
 }
 
 type Output struct {
@@ -225,6 +256,24 @@ func runDirect(c CaseIn) (co CaseOut) {
 	}()
 	ctx := context.Background()
 	w := gtxbuf.VerifNewWorkingState[State, Tx](State(cp(c.Base)), applyFor(c.Cap), deleterFor(c.Mode))
+	var hs []held
+	defer func() {
+		// overwriting what the caller was given must not reach the pending list
+		if co.Alias == "" && co.Panic == "" {
+			_, _, _, before := w.Snapshot()
+			keep := append([]Tx(nil), before...)
+			for _, h := range hs {
+				for i := range h.got {
+					h.got[i] = Tx{}
+				}
+				_, _, _, now := w.Snapshot()
+				if !sameTxs(now, keep) {
+					co.Alias = fmt.Sprintf("%d:leaked", h.step)
+					break
+				}
+			}
+		}
+	}()
 	for _, op := range c.Ops {
 		var so StepOut
 		switch op.K {
@@ -232,11 +281,17 @@ func runDirect(c CaseIn) (co CaseOut) {
 			so.E = classify(w.CheckAddTx(ctx, toTx(op.T)))
 			so.L = [][4]uint64{}
 		case "b":
-			so.L = fromTxs(w.Buffered(toTxs(op.Dst)))
+			got := w.Buffered(toTxs(op.Dst))
+			so.L = fromTxs(got)
+			hs = append(hs, held{len(co.Steps), got, append([]Tx(nil), got...)})
 		case "r":
 			inv, err := w.Rebase(ctx, State(cp(op.Base)), toTxs(op.Applied))
 			so.E = classify(err)
 			so.L = fromTxs(inv)
+			hs = append(hs, held{len(co.Steps), inv, append([]Tx(nil), inv...)})
+		}
+		if co.Alias == "" {
+			co.Alias = checkHeld(hs)
 		}
 		b, cur, u, txs := w.Snapshot()
 		so.S = &Snap{B: cp(b), C: cp(cur), U: u, T: fromTxs(txs)}
@@ -278,10 +333,28 @@ func runAPI(c CaseIn) (co CaseOut) {
 		co.Panic = "initialize failed"
 		return co
 	}
+	var hs []held
 	for _, op := range c.Ops {
 		so := doAPI(ctx, buf, op)
-		so.P = fromTxs(buf.Buffered(ctx, nil))
+		got := buf.Buffered(ctx, nil)
+		so.P = fromTxs(got)
+		hs = append(hs, held{len(co.Steps), got, append([]Tx(nil), got...)})
 		co.Steps = append(co.Steps, so)
+		if co.Alias == "" {
+			co.Alias = checkHeld(hs)
+		}
+	}
+	if co.Alias == "" {
+		keep := append([]Tx(nil), buf.Buffered(ctx, make([]Tx, 0, 8))...)
+		for _, h := range hs {
+			for i := range h.got {
+				h.got[i] = Tx{}
+			}
+			if !sameTxs(buf.Buffered(ctx, make([]Tx, 0, 8)), keep) {
+				co.Alias = fmt.Sprintf("%d:leaked", h.step)
+				break
+			}
+		}
 	}
 	if len(c.Threads) > 0 {
 		start := make(chan struct{})
